@@ -222,7 +222,7 @@ fn gen_extreme(rng: &mut Rng) -> Value {
         toks.retain(|t| t[0] != json!(MAXU) && t[1] != json!(MAXU));     // (shifting u32::MAX would leave the u32 range)
         let l = l0 + rng.range(0, 1);
         for k in 1..=3 { if rng.chance(2, 3) { toks.push(json!([l, (1i64 << 30) + k, 0, toks.len(), 0, -1, 0])); } }
-        if rng.chance(1, 3) { toks.push(json!([(1i64 << 30) + 2, 4, 0, toks.len(), 0, -1, 0])); }
+        // (no huge LINE numbers here: the producers include a save / load cycle, and the writer emits one ';' per line)
     }
     crate::c02::shuffle(rng, &mut toks);
     let mut qs = vec![json!([0, 0]), json!([MAXU, MAXU]), json!([l0, MAXU]), json!([l0 + 1, 0]), json!([l0 + 1, 1]), json!([l0, 60])];
